@@ -1,7 +1,7 @@
 /- C02: the compile-correctness induction for the core fragment WITH `if` (`TF G true`): `tf_correct` (Compile/SeqCore.lean) with
-   its `if` case discharged by `if_core` (Compile/SeqIf.lean). -/
+   its `if` case discharged by `if_coreM` (Compile/SeqIfM.lean: jump path and constant-condition folding). -/
 import JanetModel.Compile.SeqCore
-import JanetModel.Compile.SeqIf
+import JanetModel.Compile.SeqIfM
 namespace JanetModel.Compile
 open JanetModel.Emit JanetModel.Lang JanetModel.Bytecode.Exec JanetModel.Gen.Bytecode
 
@@ -13,7 +13,16 @@ theorem tf_correct_if (hP : P.length < 65536)
     (FF : FloatFacts) (G : String → Prop) : ∀ fuel, CorrectAt p f0 rest V P G (TF G true) true fuel :=
   tf_correct p f0 rest V P hP hK FF G true true (fun _ => ⟨rfl, fun fuel IH cnd tb els pp hic hlen hTc hTt hTe
       opts c c' slot sc rs pool ps n cur env env' s s' v ht hh hs hp hl htop hm hc hsem hE =>
-    if_core p f0 rest V P hP hK G true true fuel IH cnd tb els pp hic hlen hTc hTt hTe opts c c' slot sc rs pool ps n cur env env' s s' v
+    if_coreM p f0 rest V P hP hK G true true fuel IH cnd tb els pp hic hlen hTc hTt hTe opts c c' slot sc rs pool ps n cur env env' s s' v
+      ht hh hs hp hl htop hm hc hsem hE⟩)
+
+/-- both fragments at once: `TF G b` with the dropped-value switch `w = b` -/
+theorem tf_correct_b (hP : P.length < 65536)
+    (hK : ∀ i, i < P.length → (p.defs.getD f0.defIdx default).consts.getD i .nil = litOf V (P.getD i .nil))
+    (FF : FloatFacts) (G : String → Prop) (b : Bool) : ∀ fuel, CorrectAt p f0 rest V P G (TF G b) b fuel :=
+  tf_correct p f0 rest V P hP hK FF G b b (fun hb => ⟨hb, fun fuel IH cnd tb els pp hic hlen hTc hTt hTe
+      opts c c' slot sc rs pool ps n cur env env' s s' v ht hh hs hp hl htop hm hc hsem hE =>
+    if_coreM p f0 rest V P hP hK G b b fuel IH cnd tb els pp hic hlen hTc hTt hTe opts c c' slot sc rs pool ps n cur env env' s s' v
       ht hh hs hp hl htop hm hc hsem hE⟩)
 
 end
